@@ -17,6 +17,9 @@ func (e *Exec) resolveLocal(name string, at *ssa.BasicBlock, h *Heap) (Term, boo
 		for i := len(e.loopOrd) - 1; i >= 0; i-- {
 			li := e.loopOrd[i]
 			if li.rangeIdx != nil && (at == nil || li.body[at] || li.header == at) {
+				if sv, ok := e.stepVals[li.rangeIdx]; ok {
+					return intT(app("+", sv.S, "1")), true
+				}
 				return intT(app("+", e.vals[li.rangeIdx].S, "1")), true
 			}
 		}
@@ -42,6 +45,11 @@ func (e *Exec) resolveLocal(name string, at *ssa.BasicBlock, h *Heap) (Term, boo
 			}
 		}
 		return Term{}, false
+	}
+	if phi, isPhi := best.val.(*ssa.Phi); isPhi && best.blk == phi.Block() {
+		if sv, ok := e.stepVals[phi]; ok {
+			return sv, true
+		}
 	}
 	if best.isAddr {
 		// the variable lives in a cell
@@ -154,7 +162,11 @@ func (e *Exec) checkDecreases(li *loopInfo, reach string, h *Heap, at *ssa.Basic
 	vc := e.vc
 	what := fmt.Sprintf("loop%d", li.ord)
 	if li.rangeIdx != nil && li.rangeLen != "" {
-		cur := app("-", li.rangeLen, e.vals[li.rangeIdx].S)
+		curIdx := e.vals[li.rangeIdx].S
+		if sv, ok := e.stepVals[li.rangeIdx]; ok {
+			curIdx = sv.S
+		}
+		cur := app("-", li.rangeLen, curIdx)
 		hdr := app("-", li.rangeLen, hdrVals[li.rangeIdx].S)
 		vc.oblig("dec", what, reach, and(app(">=", hdr, "0"), app("<", cur, hdr)), "loop variant decreases", token.NoPos)
 		return
